@@ -292,7 +292,8 @@ def add_getter(ns, o, key, variant, ty="int", sann=False, inplace=False, base_ns
     box = []         # inplace: the getter hands out ONE list object, updated in place by the component
 
     def getter(self):
-        r = HOOK("feedback", o, key=key)
+        me = o if o == "robot" else comp_name(self, o)
+        r = HOOK("feedback", me, key=key if me == o else "%s@%s" % (key, me))
         if ty in ("int", "none"):
             return r
         dom = FB_DOM[ty]
@@ -303,7 +304,7 @@ def add_getter(ns, o, key, variant, ty="int", sann=False, inplace=False, base_ns
     if base_ns is not None:
         # the component's base class declares a @feedback getter of the same name; the override is the only one
         def base_getter(self):
-            HOOK("feedback", o, key=key + "@base")
+            HOOK("feedback", o, key=key + "@@base")
             return -12345
         base_getter.__name__ = ("get_" + key) if variant % 2 == 0 else (("_read_" if variant % 4 == 3 else "read_") + key)
         base_ns[base_getter.__name__] = feedback(base_getter) if variant % 2 == 0 else feedback(key=key)(base_getter)
@@ -358,6 +359,10 @@ def make_derived(c, base_cls, layout):
     ns = {"rx": will_reset_to(layout["resets"][c]["rx"])}
     for a in layout.get("derive_redecl", {}).get(c, []):
         ns[a] = will_reset_to(layout["resets"][c][a])
+    for g in layout["feedbacks"]:
+        if g["o"] == c and "@" not in g["key"]:
+            # a getter the derived class adds to the inherited ones
+            add_getter(ns, c, g["key"], 0, g.get("ty", "int"), g.get("sann", False))
     return type("Comp_" + c, (base_cls,), ns)
 
 
@@ -675,7 +680,9 @@ def gen_layout(rng, uid):
         has[b], resets[b], plain[b] = dict(has[a]), dict(resets[a]), dict(plain[a])
         inherit[b], redeclare[b], shadow[b] = list(inherit[a]), list(redeclare[a]), list(shadow[a])
         initassign[b] = list(initassign[a])
-        fbs = [g for g in fbs if g["o"] not in (a, b)]
+        # b publishes the getters of the shared class under its own name (key id '<key>@<b>')
+        fbs = [g for g in fbs if g["o"] != b]
+        fbs += [dict(g, o=b, key="%s@%s" % (g["key"], b), ovr=False) for g in fbs if g["o"] == a]
         if a in sm and b not in sm:
             sm.append(b)
         if b in sm and a not in sm:
@@ -694,7 +701,11 @@ def gen_layout(rng, uid):
             resets[b][x] = resets[a][x] + 2
         resets[b]["rx"] = rng.choice([0, 1, 5])
         inherit[b], redeclare[b], shadow[b], initassign[b] = [], [], list(shadow[a]), list(initassign[a])
-        fbs = [g for g in fbs if g["o"] not in (a, b)]
+        # b inherits a's getters (published under b's name) and may add one of its own
+        fbs = [g for g in fbs if g["o"] != b and not (g["o"] == a and g.get("ovr"))]
+        fbs += [dict(g, o=b, key="%s@%s" % (g["key"], b)) for g in fbs if g["o"] == a]
+        if rng.random() < 0.6:
+            fbs.append({"o": b, "key": "own_%s" % b, "ty": rng.choice(FB_TYPES), "sann": False})
         if a in sm and b not in sm:
             sm.append(b)
         if b in sm and a not in sm:
@@ -800,7 +811,7 @@ def run_history(tid, layout, fms, policy_factory, scratch):
         # the robot thread is blocked: observe, deliver inputs, advance the clock to the alarm
         fb, fbt = {}, {}
         for g in layout["feedbacks"]:
-            path = ("/robot/" if g["o"] == "robot" else "/components/%s/" % g["o"]) + g["key"]
+            path = ("/robot/" if g["o"] == "robot" else "/components/%s/" % g["o"]) + g["key"].split("@")[0]
             fb[g["key"]], fbt[g["key"]] = read_feedback(inst, path, g.get("ty", "int"))
         Rec.log[-1]["fb"] = fb
         Rec.log[-1]["fbt"] = fbt
